@@ -197,6 +197,10 @@ def judge(traces, chk, tag, batch=400):
 
 def run(chk):
     tier = chk.tier
+    # the stage before auto-design: what network_from_json makes of a topology document and the library (NetworkLoad.tla) -
+    # "well-formed topology" is what this stage accepts, and the parameters it resolves are what the design then completes
+    from harness import netload_util
+    netload_util.run_part(chk)
     # ---- B1 (+ emission of the cases for B2: thorough in the same exhaustive run; quick: B1 explores the model under
     # four settings per topology and a second, enumeration-only run lists the cases of the half fraction for B2)
     t0 = time.time()
@@ -449,7 +453,15 @@ def _mut_asdict_drops_frequency():
     FiberParams.asdict = asdict
 
 
-MUTANTS = {'asdict_drops_frequency': _mut_asdict_drops_frequency, 'split_same_name': _mut_split_same_name, 'inline_stale_list': _mut_inline_stale_list,
+def _netload_mutant(name):
+    def f():
+        from harness import netload_util
+        netload_util.MUTANTS[name]()
+    return f
+
+
+MUTANTS = {'netload_zero_is_absent': _netload_mutant('zero_is_absent'), 'netload_weight_entering_fibre': _netload_mutant('weight_entering_fibre'),
+           'asdict_drops_frequency': _mut_asdict_drops_frequency, 'split_same_name': _mut_split_same_name, 'inline_stale_list': _mut_inline_stale_list,
            'padding_skips_fused_chain': _mut_padding_skips_fused_chain,
            'split_integer_length': _mut_split_integer_length, 'gain_mode_no_voa': _mut_gain_mode_no_voa,
            'preamp_skipped_after_split': _mut_preamp_skipped_after_split}
